@@ -12,6 +12,7 @@ package main
 
 import (
 	"bytes"
+	"crypto/sha256"
 	"encoding/hex"
 	"encoding/json"
 	"flag"
@@ -80,7 +81,7 @@ func relConfig(seed int64) chainsim.Config {
 	return chainsim.Config{Seed: seed, NKeys: 18,
 		Balances:  map[int]int64{0: 40000000, 1: 40000000, 2: 20000000, 3: 20000000, 4: 5000000, 5: 300000, 6: 30000, 7: 30000000, 8: 100000, 9: 100000, 10: 100000, 11: 100000, 12: 100000},
 		Nodes:     []chainsim.NodeSpec{{Key: 0, Output: -1, Tokens: 5000000, Chains: []string{"0001"}}, {Key: 1, Output: -1, Tokens: 3000000, Chains: []string{"0001", "0002"}}},
-		Apps:      []chainsim.AppSpec{{Key: 3, Tokens: 2000000, Chains: []string{"0001"}}},
+		Apps:      []chainsim.AppSpec{{Key: 3, Tokens: 2000000, Chains: []string{"0001", "0002"}}},
 		DAOTokens: 1000000, DAOOwner: 0, Servicer: -1}
 }
 
@@ -160,6 +161,19 @@ func buildTx(s *chainsim.Sim, t map[string]interface{}) []byte {
 		if signer == "" {
 			signer = tx.Str("node")
 		}
+	case "claim":
+		h := sha256.Sum256([]byte(fmt.Sprintf("root-%d", e)))
+		msg = &pocketTypes.MsgClaim{
+			SessionHeader: pocketTypes.SessionHeader{ApplicationPubKey: s.Keys[keyIdx(s, tx.Str("app"))].PublicKey().RawString(),
+				Chain: tx.Str("chain"), SessionBlockHeight: int64(tx.Int("sessionHeight"))},
+			MerkleRoot:   pocketTypes.HashRange{Hash: h[:], Range: pocketTypes.Range{Lower: 0, Upper: 1000000}},
+			TotalProofs:  int64(tx.Int("total")),
+			FromAddress:  addrOf(s, tx.Str("node")),
+			EvidenceType: pocketTypes.RelayEvidence,
+		}
+		if signer == "" {
+			signer = tx.Str("node")
+		}
 	case "node_unstake":
 		msg = &nodesTypes.MsgBeginUnstake{Address: addrOf(s, tx.Str("node")), Signer: addrOf(s, signer)}
 	case "node_unjail":
@@ -181,8 +195,16 @@ func runNode(sc Script) (out NodeOut) {
 		chainsim.T0 = time.Unix(sc.T0Unix, 0).UTC()
 	}
 	cfg := relConfig(sc.Seed)
+	{
+		// VEDIT (edit-stake must reach a new stake bin) is left inactive: with the default
+		// 15e9 bin size no edit-stake of the small economy could ever succeed
+		f := chainsim.DefaultFeatures()
+		delete(f, "VEDIT")
+		cfg.Features = f
+	}
 	if sc.NoParamFeatures {
 		f := chainsim.DefaultFeatures()
+		delete(f, "VEDIT")
 		for _, k := range []string{"BLOCK", "RSCAL", "PerChainRTTM"} {
 			delete(f, k)
 		}
